@@ -199,6 +199,14 @@ def run(R):
                             body.npath.split("::")[-1], f, "evm-custom subcommand" if f in SUBCMD_FLAGS else "top-level options"), body, x["line"])
                         continue
                     takes = reg["action"] in ("Set", "Append")
+                    # a value written as a separator-joined list must be split by the reader with the same separator
+                    for sep in x.get("joined_with", []):
+                        if reg.get("delimiter") != sep:
+                            okr = False
+                            R.viol("C20.clap", "list-delimiter:%s" % f, "%s is written as a list joined with %r but antnode registers it with value_delimiter %r: the list is read back as one value" % (
+                                f, sep, reg.get("delimiter")), body, x["line"])
+                    if reg.get("delimiter") and not x.get("joined_with") and reg["action"] == "Append" and x["takes_value"]:
+                        pass  # a single value is fine with or without a delimiter
                     if takes != x["takes_value"]:
                         okr = False
                         R.viol("C20.clap", "arity:%s" % f, "%s is written %s a value but antnode registers it as %s" % (f, "with" if x["takes_value"] else "without", reg["action"]), body, x["line"])
